@@ -33,10 +33,32 @@ type layout struct {
 	K      int // filler constants (instructions without a position) before the operation
 	Lines  int // blank lines before the failing statement
 	Fill   int // filler statements before the failing statement (pc distance)
+	// FillKind: what the filler statements are. 0: q = const; 1: for a, b in [(1, 2)]: pass;
+	// 2: q = [0 for a, b in [(1, 2)]]; 3: a, (b, c) = (1, (2, 3)); 4: q = a if b else c chains.
+	// Destructuring produces consecutive positioned instructions with the same position.
+	FillKind int `json:",omitempty"`
+}
+
+func fillerStmt(kind, i int) *Node {
+	switch kind {
+	case 1:
+		return For(Tuple(Name("fa"), Name("fb")), List(Tuple(Num(1), Num(2))), []*Node{Pass()})
+	case 2:
+		return Assign("=", Name("q"), ListComp(Num(0), ForC(Tuple(Name("fa"), Name("fb")), List(Tuple(Num(1), Num(2))))))
+	case 3:
+		return Assign("=", Tuple(Name("fa"), Paren(Tuple(Name("fb"), Name("fc")))), Tuple(Num(1), Paren(Tuple(Num(2), Num(3)))))
+	case 4:
+		return Assign("=", Name("q"), Cond(Num(int64(i%2)), Num(1), Num(2)))
+	}
+	return Assign("=", Name("q"), Num(int64(i%5)))
 }
 
 func (l layout) String() string {
-	return fmt.Sprintf("p%d,%d n%d,%d k%d L%d F%d", l.P1, l.P2, l.N1, l.N2, l.K, l.Lines, l.Fill)
+	s := fmt.Sprintf("p%d,%d n%d,%d k%d L%d F%d", l.P1, l.P2, l.N1, l.N2, l.K, l.Lines, l.Fill)
+	if l.FillKind != 0 {
+		s += fmt.Sprintf(" kind%d", l.FillKind)
+	}
+	return s
 }
 
 // failing statement builders: return the statements of the innermost
@@ -259,7 +281,7 @@ func chain(links []string, op failOp, l layout, linkLayout layout) (stmts []*Nod
 	body, at, builtin := op.build(l)
 	var inner []*Node
 	for i := 0; i < l.Fill; i++ {
-		inner = append(inner, Assign("=", Name("q"), Num(int64(i%5))))
+		inner = append(inner, fillerStmt(l.FillKind, i))
 	}
 	body[0].PadLines = l.Lines
 	inner = append(inner, body...)
@@ -302,7 +324,7 @@ func chain(links []string, op failOp, l layout, linkLayout layout) (stmts []*Nod
 		}
 		var b []*Node
 		for k := 0; k < linkLayout.Fill; k++ {
-			b = append(b, Assign("=", Name("q"), Num(int64(k%5))))
+			b = append(b, fillerStmt(linkLayout.FillKind, k))
 		}
 		ret := Return(Paren(e))
 		ret.PadLines = linkLayout.Lines
@@ -363,6 +385,9 @@ func checkCase(k kase, ops map[string]failOp) (msg string, src string) {
 			order = append(order, i)
 		}
 		return checkSeq(strings.TrimPrefix(k.Op, "seq:"), order)
+	}
+	if strings.HasPrefix(k.Op, "load:") {
+		return checkLoad(strings.TrimPrefix(k.Op, "load:"))
 	}
 	if strings.HasPrefix(k.Op, "rec:") {
 		return checkRecursive(strings.TrimPrefix(k.Op, "rec:"), len(k.Links))
@@ -548,6 +573,18 @@ func enumerate(thorough bool, yield func(level string, k kase) bool) {
 			}
 		}
 	}
+	// level 6b: the statements that precede the failing operation (and the calls on the way to
+	// it) are destructuring loops, comprehensions and assignments or conditional expressions
+	for _, op := range ops {
+		for kind := 1; kind <= 4; kind++ {
+			for _, f := range []int{1, 2, 3, 9} {
+				l := layout{Fill: f, FillKind: kind}
+				if !yield("L6b:preceding statements of every shape", kase{Links: []string{"direct"}, Op: op.name, Layout: l, LinkL: l}) {
+					return
+				}
+			}
+		}
+	}
 	// level 7: state left in a compiled function by earlier position queries: every ordered
 	// pair and triple (quadruple: thorough) of failing operations of one function, and
 	// recursive activations of one function suspended at different operations
@@ -575,6 +612,11 @@ func enumerate(thorough bool, yield func(level string, k kase) bool) {
 			return true
 		}
 		if !rec(nil) {
+			return
+		}
+	}
+	for _, v := range loadVariants {
+		if !yield("L7:repeated and recursive position queries on one function", kase{Op: "load:" + v, Layout: layout{Lines: 1}}) {
 			return
 		}
 	}
